@@ -172,9 +172,10 @@ def decide_unit(r, baseline):
 
 
 def write_replay(pid, r, v, kani_cex=None):
-    os.makedirs(os.path.join(VERIF, "replay"), exist_ok=True)
+    rdir = os.environ.get("VERIF_REPLAY_DIR") or os.path.join(VERIF, "replay")
+    os.makedirs(rdir, exist_ok=True)
     name = re.sub(r"[^\w.-]+", "_", v["obligation"])
-    path = os.path.join(VERIF, "replay", f"{pid}-{name}.txt")
+    path = os.path.join(rdir, f"{pid}-{name}.txt")
     with open(path, "w") as f:
         f.write(f"property: {pid}\nfailed obligation: {v['obligation']}\nengine: Verus (z3)\ncommand: {r.get('checker_cmd')}\n")
         f.write("verifier output:\n")
@@ -209,7 +210,7 @@ def main():
     conf = PROPS[pid]
     t0 = time.time()
     global BUILD
-    BUILD = os.path.join(BUILD, pid)   # per-property build directory: checks may run concurrently
+    BUILD = os.path.join(BUILD, pid + os.environ.get("VERIF_BUILD_TAG", ""))   # per-property build directory: checks may run concurrently
     shutil.rmtree(BUILD, ignore_errors=True)
     os.makedirs(BUILD, exist_ok=True)
     baseline = load_json(BASELINE, {})
@@ -318,8 +319,9 @@ def main():
         "wall_s": round(time.time() - t0, 2),
         "violations": vcount,
     }
-    os.makedirs(os.path.join(VERIF, "evidence"), exist_ok=True)
-    json.dump(ev, open(os.path.join(VERIF, "evidence", pid + ".json"), "w"), indent=1)
+    evdir = os.environ.get("VERIF_EVIDENCE_DIR") or os.path.join(VERIF, "evidence")   # redirected only by tools/seed_eval.py
+    os.makedirs(evdir, exist_ok=True)
+    json.dump(ev, open(os.path.join(evdir, pid + ".json"), "w"), indent=1)
     for l in known_lines:
         print(l)
     for l in out_lines:
